@@ -5,6 +5,6 @@ CONSTANTS
   MaxTemp = 100
 VIEW TView
 CONSTRAINT HWM
-INVARIANTS ExactlyOnce SecondReportsClosed CloseEndsEverything ShutdownWaits ServeResult
+INVARIANTS ExactlyOnce SecondReportsClosed CloseEndsEverything ShutdownWaits ServeResult ListenerErrorStillCloses
 POSTCONDITION TraceAccepted
 CHECK_DEADLOCK FALSE
